@@ -410,6 +410,25 @@ class TDMProgram(Program):
 
             self._spatial_modes = len(self.N)
 
+    def __eq__(self, prog):
+        """Equality operator for time-domain programs.
+
+        Besides the (rolled-up) circuit, the time-bin parameter arrays, the number of concurrent
+        modes ``N`` and the shift belong to the program: two programs that loop the same gates
+        over different parameter arrays are different programs.
+        """
+        if not isinstance(prog, TDMProgram):
+            return False
+        if not super().__eq__(prog):
+            return False
+        if list(self.N) != list(prog.N) or getattr(self, "shift", None) != getattr(prog, "shift", None):
+            return False
+        mine, theirs = getattr(self, "tdm_params", []), getattr(prog, "tdm_params", [])
+        return len(mine) == len(theirs) and all(
+            np.shape(a) == np.shape(b) and bool(np.all(np.asarray(a) == np.asarray(b)))
+            for a, b in zip(mine, theirs)
+        )
+
     @property
     def parameters(self):
         """Return the parameters of the ``TDMProgram`` as a dictionary with the parameter
